@@ -84,3 +84,11 @@ def gen_fs_forest(rng, hostile=False, max_roots=3):
 def ancestors(p):
     parts = p.split(b"/")
     return [b"/".join(parts[:i]) for i in range(1, len(parts))]
+
+
+def fs_result(part):
+    """(result, chunks, snapshot) of one file-system op result; abnormal results (panic / crash / timeout) have no snapshot"""
+    f = part.split(" ")
+    if len(f) >= 3:
+        return f[0], f[1], f[2]
+    return f[0], "-", "-"
